@@ -2,6 +2,7 @@ package c12
 
 import (
 	"fmt"
+	"sort"
 	"strconv"
 	"strings"
 	"sync"
@@ -20,6 +21,12 @@ type realWorld struct {
 	n      int
 	insts  []slip.Object
 	funcs  map[string]bool
+	ext    bool
+	lastEv string      // default-initarg forms evaluated by the last make
+	lastIn string      // trace of the initialize-instance / shared-initialize :after methods of the last make
+	old    map[int]int // class -> handle of the instance made before the redefinition (warm)
+
+	extDefined []int // ext: classes for which the further methods were defined
 }
 
 var runCounter int64
@@ -31,6 +38,7 @@ func newRealWorld(n int) *realWorld {
 		scope:  slip.NewScope(),
 		n:      n,
 		funcs:  map[string]bool{},
+		old:    map[int]int{},
 	}
 }
 
@@ -80,6 +88,9 @@ func (w *realWorld) defclassText(i int, d classDef) string {
 		for _, a := range sd.initargs {
 			fmt.Fprintf(&b, " :initarg :%s", a)
 		}
+		if sd.shared {
+			b.WriteString(" :allocation :class")
+		}
 		switch sd.form {
 		case 1:
 			if sd.name == "u" {
@@ -93,7 +104,17 @@ func (w *realWorld) defclassText(i int, d classDef) string {
 		fmt.Fprintf(&b, " :reader %s :writer %s :accessor %s)", w.fn("rd-"+sd.name), w.fn("wr-"+sd.name), w.fn(sd.name+"-of"))
 		w.funcs["(setf "+w.prefix+sd.name+"-of)"] = true
 	}
-	b.WriteString("))")
+	b.WriteString(")")
+	if dm := d.defaults(i); 0 < len(dm) {
+		b.WriteString(" (:default-initargs")
+		for _, a := range argOrder {
+			if v, has := dm[a]; has {
+				fmt.Fprintf(&b, " :%s (tr '%s %d)", a, defaultLabel(i, a), v) // a form: logs that it is evaluated
+			}
+		}
+		b.WriteString(")")
+	}
+	b.WriteString(")")
 	return b.String()
 }
 
@@ -104,6 +125,11 @@ func (w *realWorld) defclass(i int, d classDef) string {
 
 func (w *realWorld) defmethods(i int) string {
 	g := w.fn("g")
+	if w.ext {
+		w.extDefined = append(w.extDefined, i)
+		_, e := w.eval(w.extMethodsText(i))
+		return e
+	}
 	_, e := w.eval(fmt.Sprintf("(progn (defmethod %s :before ((x %s)) (tr '%s)) (defmethod %s ((x %s)) '%s))",
 		g, w.cn(i), cname(i), g, w.cn(i), cname(i)))
 	return e
@@ -128,8 +154,22 @@ func (w *realWorld) precedence(i int) string {
 	return strings.Join(out, " ")
 }
 
+func (w *realWorld) evaluated() string { return w.lastEv }
+
 func (w *realWorld) make(i int, sigma []string) (int, string) {
+	lisp.ResetTrace()
 	val, e := w.eval(fmt.Sprintf("(make-instance '%s%s)", w.cn(i), sigmaArgs(sigma)))
+	var ev, in []string
+	for _, t := range lisp.Trace() {
+		if strings.HasPrefix(t, "d") {
+			ev = append(ev, t)
+		} else {
+			in = append(in, w.canon(t))
+		}
+	}
+	lisp.ResetTrace()
+	sort.Strings(ev)
+	w.lastEv, w.lastIn = strings.Join(ev, ","), strings.Join(in, ";")
 	if e != "" {
 		return -1, e
 	}
@@ -152,6 +192,9 @@ func dumpExpr(v string) string {
 	helperOnce.Do(func() {
 		if _, err := lisp.Eval("(defun c12-dump (v) " + dumpText("v") + ")"); err != nil {
 			panic("harness: cannot define c12-dump: " + err.String())
+		}
+		if _, err := lisp.Eval("(defvar *c12-log* nil)"); err != nil {
+			panic("harness: cannot define *c12-log*: " + err.String())
 		}
 	})
 	return "(c12-dump " + v + ")"
@@ -317,7 +360,16 @@ func (w *realWorld) accessor(hx, hy int, slot string) string {
 
 func (w *realWorld) warm(i int) {
 	lisp.ResetTrace()
-	_, _ = w.eval(fmt.Sprintf("(%s (make-instance '%s))", w.fn("g"), w.cn(i)))
+	if w.ext {
+		// the instance is kept: it is probed again after the redefinition
+		if h, res := w.make(i, nil); res == "ok" {
+			w.old[i] = h
+			w.bind("vi", h)
+			_, _ = w.eval(fmt.Sprintf("(%s vi)", w.fn("g")))
+		}
+	} else {
+		_, _ = w.eval(fmt.Sprintf("(%s (make-instance '%s))", w.fn("g"), w.cn(i)))
+	}
 	lisp.ResetTrace()
 }
 
@@ -325,6 +377,9 @@ func (w *realWorld) warm(i int) {
 // slow down (defclass walks every class of the package).
 func (w *realWorld) close() {
 	defer func() { _ = recover() }()
+	for _, i := range w.extDefined {
+		w.removeExtMethods(i)
+	}
 	for i := 0; i < w.n; i++ {
 		slip.CurrentPackage.Remove(w.cn(i))
 	}
